@@ -1076,6 +1076,19 @@ def m_into_iter_live(ex, st, call, args):
     return NotImplemented
 
 
+def m_int_const(op):
+    """integer helpers of core::num on constants (saturating_sub, saturating_add, min, max, abs_diff)"""
+    def model(ex, st, call, args):
+        vals = [ex.canon(st, a) for a in args]
+        if not all(v[0] == "const" and isinstance(v[1], int) and not isinstance(v[1], bool) for v in vals):
+            return NotImplemented
+        a = vals[0][1]
+        b = vals[1][1] if len(vals) > 1 else None
+        r = {"saturating_sub": lambda: max(0, a - b) if "<impl u" in (call.path or "") else a - b, "saturating_add": lambda: a + b, "abs_diff": lambda: abs(a - b)}[op]()
+        return _ret(st, ("const", r))
+    return model
+
+
 def m_replace(ex, st, call, args):
     """core::mem::replace(&mut a, v) -> old a"""
     a, v = args
@@ -1552,6 +1565,9 @@ DEFAULT_MODELS = {
     "alloc::vec::Vec::<T>::with_capacity": m_vec_new,
     "alloc::vec::Vec::<T, A>::push": m_vec_push,
     "core::slice::<impl [T]>::swap": m_slice_swap,
+    "core::num::<impl usize>::saturating_sub": m_int_const("saturating_sub"),
+    "core::num::<impl usize>::saturating_add": m_int_const("saturating_add"),
+    "core::num::<impl usize>::abs_diff": m_int_const("abs_diff"),
     "core::slice::<impl [T]>::iter_mut": m_iter_mut,
     "core::iter::traits::collect::IntoIterator::into_iter": m_into_iter_live,
     "core::slice::<impl [T]>::is_empty": m_is_empty,
